@@ -1509,6 +1509,8 @@ class Fxp():
     # bit level operators
 
     def __rshift__(self, n):
+        if isinstance(n, np.integer) or (isinstance(n, np.ndarray) and n.ndim == 0 and n.dtype.kind in 'iu'):
+            n = int(n)      # a NumPy-typed count is a count like a python one (it would reach the sizes of the result)
         if self.config.shifting == 'expand':
             min_pow2 = utils.min_pow2(self.val)     # minimum power of 2 in raw val
             if min_pow2 is not None and n > min_pow2:
@@ -1522,11 +1524,15 @@ class Fxp():
             y = self.deepcopy()
             # a shifted scalar is kept like every other scalar value (a 0-d array of the same type)
             y.val = np.asarray(y.val >> np.array(n, dtype=y.val.dtype), dtype=y.val.dtype)
+            if not np.iscomplexobj(y.val):
+                y.real = y.get_val()    # (the stored reading follows the new codes, like after every store)
         return y
 
     __irshift__ = __rshift__
 
     def __lshift__(self, n):
+        if isinstance(n, np.integer) or (isinstance(n, np.ndarray) and n.ndim == 0 and n.dtype.kind in 'iu'):
+            n = int(n)
         if self.config.shifting == 'expand':
             n_word = max(self.n_word, int(np.max(np.ceil(np.log2(np.abs(self.val)+0.5)))) + self.signed + n)
         else:
